@@ -106,3 +106,20 @@ Theorem C03_ram_org : forall w high r ns o,
   exists r1 addrs tr, resolve_labels w r ns = Ok (r1, addrs) /\
     model_trace w (emit_start r1) ns addrs = Ok (tr, r_pc (o_final o)) /\ ram_org_ok high tr = true.
 Proof. exact assemble_ram_org_ok. Qed.
+
+(** The step invariants under ownership of a bank sub-interval ([covers_sub], Proofs/CoversSub.v):
+    the forms that are not vacuous on the built-in HiROM bus (its ROM mapping does not own all of
+    its bank range), with the invariant established by a [*=] into HiROM banks 0x40-0x7D. *)
+From A816 Require Import Proofs.CoversSub Proofs.CoversSubProgram.
+Theorem C03_hirom_star_eq : forall w st e fi x st' v bus,
+  bus_agree_b bus hirom = true -> emit_step w st (NCodePos e fi) x = Ok st' ->
+  get_value w (e_r st) e = Ok v -> get_bus w (e_r st) = Ok bus -> 64 <= bank_of v <= 125 ->
+  synced_sub m_hi 64 125 st' /\ a_val (r_reloc (e_r st')) = v /\ e_baddr st' = spec_offset m_hi v.
+Proof. exact hirom_star_eq. Qed.
+Theorem C03_offsets_step_sub : forall w m lo hi st n x st',
+  synced_sub m lo hi st -> is_position n = false -> emit_step w st n x = Ok st' ->
+  spec_offset m (a_val (r_reloc (e_r st'))) < (hi - m_first m + 1) * m_mask m ->
+  synced_sub m lo hi st' /\ exists r1 bs, node_emit w (e_r st) n = Ok (r1, bs) /\
+    spec_offset m (a_val (r_reloc (e_r st'))) = spec_offset m (a_val (r_reloc (e_r st))) + Z.of_nat (length bs) /\
+    e_baddr st' = e_baddr st.
+Proof. exact emit_step_synced_sub. Qed.
